@@ -73,7 +73,10 @@ impl Middleware for CountingMw {
 /// or forwards.
 fn gate_mw<'a>(req: &'a Message, next: Next<'a>) -> Result<Message, RepeError> {
     if req.body.starts_with(b"#mw-err") {
-        return Err(RepeError::ServerError { code: ErrorCode::ResourceExhausted, message: "gate refused".into() });
+        return Err(match req.body.get(7) {
+            Some(l) => repe_error_by_letter(*l, req.body.get(8).copied().unwrap_or(0)).0,
+            None => RepeError::ServerError { code: ErrorCode::ResourceExhausted, message: "gate refused".into() },
+        });
     }
     if req.body.starts_with(b"#mw-own") {
         return Ok(Message::builder().id(req.header.id).query_format_code(1).body_utf8("short").build());
@@ -111,6 +114,31 @@ impl Device {
     }
 }
 
+/// A derive-generated struct mount that is only ever READ (requests to it carry no body), so its answers are known.
+#[derive(Serialize, Deserialize, repe::RepeStruct)]
+#[repe(methods(hello(&self) -> String, add(&self, v: Vec<i64>) -> i64))]
+struct Consts {
+    gain: i32,
+    label: String,
+}
+impl Consts {
+    fn hello(&self) -> String { "hi".into() }
+    fn add(&self, v: Vec<i64>) -> i64 { v.iter().sum() }
+}
+const CONST_PATHS: &[(&str, &str, u32)] = &[("/const/gain", "7", 0), ("/const/label", "\"c\"", 0), ("/const/hello", "\"hi\"", 0), ("/const/nope", "", 6), ("/const/gain/x", "", 6), ("/const/add", "", 4)];
+/// A registry document 20 objects deep, read only: `/reg/deep/a/a/…`.
+const DEEP_LEVELS: usize = 20;
+fn deep_doc(levels: usize) -> Value {
+    let mut v = json!({"leaf": levels});
+    for d in (0..levels).rev() { v = json!({"a": v, "d": d}); }
+    v
+}
+/// A registered exact route as long as the "too long to exist" unknown paths.
+fn long_route() -> &'static str {
+    static L: std::sync::OnceLock<String> = std::sync::OnceLock::new();
+    L.get_or_init(|| format!("/long/{}", "L".repeat(9000)))
+}
+
 /// A struct mount that is a binary tree 40 levels deep (children `n` and `m` at every node) and stateless: a path of
 /// existing segments is answered with its depth and the segments the handler was given, anything else is an invalid
 /// path. Deep paths (15..40 segments) that exist and deep paths whose k-th segment does not exist both occur.
@@ -140,6 +168,38 @@ fn tree_expect(relative: &str, body: Option<Value>) -> Exp {
     Exp::Ok { bfmt: 2, body: serde_json::to_vec(&v).unwrap() }
 }
 
+/// Every `ErrorCode` variant (a closure may return any of them, `Ok` included).
+const ALL_CODES: [(ErrorCode, u32); 11] = [(ErrorCode::Ok, 0), (ErrorCode::VersionMismatch, 1), (ErrorCode::InvalidHeader, 2), (ErrorCode::InvalidQuery, 3), (ErrorCode::InvalidBody, 4),
+    (ErrorCode::ParseError, 5), (ErrorCode::MethodNotFound, 6), (ErrorCode::Timeout, 7), (ErrorCode::ResourceExhausted, 8), (ErrorCode::InternalError, 9), (ErrorCode::ApplicationErrorBase, 4096)];
+/// The closure error selected by a `"fail"` member: a number picks the variant, anything else the application base.
+fn fail_code(v: &Value) -> Option<(ErrorCode, u32)> {
+    v.get("fail").map(|f| f.as_u64().map(|n| ALL_CODES[(n % 11) as usize]).unwrap_or((ErrorCode::ApplicationErrorBase, 4096)))
+}
+const IO_KINDS: [std::io::ErrorKind; 10] = [std::io::ErrorKind::UnexpectedEof, std::io::ErrorKind::BrokenPipe, std::io::ErrorKind::Interrupted, std::io::ErrorKind::WouldBlock, std::io::ErrorKind::TimedOut,
+    std::io::ErrorKind::ConnectionReset, std::io::ErrorKind::InvalidData, std::io::ErrorKind::NotFound, std::io::ErrorKind::PermissionDenied, std::io::ErrorKind::Other];
+/// A `RepeError` of every variant, selected by a letter (custom handler: second body byte; gate middleware: the byte
+/// after `#mw-err`), and the error code the specification assigns to it (written here from the REPE table, not taken
+/// from `to_error_code`).
+fn repe_error_by_letter(sel: u8, third: u8) -> (RepeError, u32) {
+    match sel {
+        b'j' => (RepeError::Json(serde_json::from_str::<Value>("{").unwrap_err()), 5),
+        b'b' => (RepeError::Beve(beve::from_slice::<Value>(&[]).unwrap_err()), 5),
+        b'i' => (RepeError::Io(std::io::Error::new(IO_KINDS[(third % 10) as usize], "io")), 5),
+        b'v' => (RepeError::VersionMismatch(3), 1),
+        b's' => (RepeError::InvalidSpec(0x1234), 2),
+        b'h' => (RepeError::InvalidHeaderLength(10), 2),
+        b'l' => (RepeError::LengthMismatch { expected: 5, got: 3 }, 2),
+        b't' => (RepeError::BufferTooSmall { need: 10, have: 1 }, 5),
+        b'r' => (RepeError::ResponseIdMismatch { expected: 1, got: 2 }, 2),
+        b'u' => (RepeError::UnknownEnumValue(9), 5),
+        b'f' => (RepeError::UnexpectedBodyFormat { expected: repe::BodyFormat::Beve, got: 2 }, 4),
+        b'm' => (RepeError::MessageTooLarge { size: 10, limit: 1 }, 9),
+        b'0'..=b'9' | b'a' => { let (c, n) = ALL_CODES[if sel == b'a' { 10 } else { (sel - b'0') as usize }]; (RepeError::ServerError { code: c, message: "by letter".into() }, n) }
+        _ => (RepeError::ServerError { code: ErrorCode::Timeout, message: "custom refused".into() }, 7),
+    }
+}
+const ERR_LETTERS: &[u8] = b"jbivshltrufm0123456789a";
+
 const OWN_QUERY: &[u8] = b"/own/query";
 
 /// Custom erased handler: refuses with `Err`, leaves the response query empty (the dispatch layer must echo), or sets
@@ -149,7 +209,7 @@ impl HandlerErased for Custom {
     fn handle(&self, req: &Message) -> Result<Message, RepeError> {
         self.0.closure("/custom");
         if req.body.first() == Some(&b'!') {
-            return Err(RepeError::ServerError { code: ErrorCode::Timeout, message: "custom refused".into() });
+            return Err(repe_error_by_letter(req.body.get(1).copied().unwrap_or(0), req.body.get(2).copied().unwrap_or(0)).0);
         }
         let b = Message::builder().id(req.header.id).query_format_code(1).body_bytes(req.body.clone()).body_format_code(1234);
         let mut m = if req.body.first() == Some(&b'e') { b.build() } else { b.query_bytes(OWN_QUERY.to_vec()).build() };
@@ -239,13 +299,16 @@ const EXACT: &[RouteSpec] = &[
     rs("/custom", HK::Custom, 0, false),
 ];
 /// (mount point, kind, variant): struct variant 1 is the stateless 40-level tree
-const MOUNTS: &[(&str, HK, u8)] = &[("/reg", HK::Registry, 0), ("/de", HK::Registry, 0), ("/re", HK::Registry, 0), ("/dev", HK::Struct, 0), ("/devrw", HK::Struct, 0), ("/tree", HK::Struct, 1)];
+const MOUNTS: &[(&str, HK, u8)] = &[("/reg", HK::Registry, 0), ("/de", HK::Registry, 0), ("/re", HK::Registry, 0), ("/dev", HK::Struct, 0), ("/devrw", HK::Struct, 0), ("/tree", HK::Struct, 1), ("/const", HK::Struct, 2)];
 
 /// The lookup rule the property states (exact path wins; a mount gets its prefix itself or an extension at a '/'
 /// boundary; registries before structs, in registration order) — independent of `Router::get`.
 fn expected_route(path: &str) -> Option<RouteSpec> {
     if let Some(r) = EXACT.iter().find(|r| r.path == path) {
         return Some(*r);
+    }
+    if path == long_route() {
+        return Some(RouteSpec { path: long_route(), hk: HK::Json, var: 0, blocking: false });
     }
     let hit = |m: &str| path == m || (path.starts_with(m) && path.as_bytes().get(m.len()) == Some(&b'/'));
     for want in [HK::Registry, HK::Struct] {
@@ -262,6 +325,7 @@ fn make_router(c: &Counters, wrapped: bool) -> Router {
     let reg = Arc::new(Registry::new());
     reg.register_value("/a", json!({"b": 1, "list": [1, 2, 3]})).unwrap();
     reg.register_value("/s", json!("text")).unwrap();
+    reg.register_value("/deep", deep_doc(DEEP_LEVELS)).unwrap();
     {
         let c2 = c.clone();
         reg.register_function("/f", move |v: Option<Value>| {
@@ -282,8 +346,8 @@ fn make_router(c: &Counters, wrapped: bool) -> Router {
             if name == "/slow" {
                 std::thread::sleep(Duration::from_millis(6));
             }
-            if v.get("fail").is_some() {
-                return Err((ErrorCode::ApplicationErrorBase, format!("{} failed", name)));
+            if let Some((code, _)) = fail_code(&v) {
+                return Err((code, format!("{} failed", name)));
             }
             Ok(json!({"route": name, "got": v}))
         }
@@ -317,7 +381,14 @@ fn make_router(c: &Counters, wrapped: bool) -> Router {
         let c = c.clone();
         move |i: TIn| -> Result<repe::TypedResponse<TOut>, (ErrorCode, String)> {
             c.closure(name);
-            Ok(repe::TypedResponse::new(TOut { sum: i.a, echo: i.b }, fmt))
+            let t = TOut { sum: i.a, echo: i.b };
+            Ok(match fmt {
+                repe::BodyFormat::Beve => repe::TypedResponse::beve(t),
+                repe::BodyFormat::Utf8 => repe::TypedResponse::utf8(t),
+                repe::BodyFormat::RawBinary => repe::TypedResponse::raw_binary(t),
+                repe::BodyFormat::Json => repe::TypedResponse::json(t),
+                other => repe::TypedResponse::new(t, other),
+            })
         }
     };
     let mktctx = |name: &'static str, c: &Counters| {
@@ -402,6 +473,8 @@ fn make_router(c: &Counters, wrapped: bool) -> Router {
         .with_struct("/dev", Device { gain: 3, label: "x".into() });
     let router = router.with_struct_shared::<Device, RwLock<Device>>("/devrw", Arc::new(RwLock::new(Device { gain: 3, label: "x".into() })));
     let (router, _tree) = router.with_struct("/tree", Tree);
+    let (router, _consts) = router.with_struct("/const", Consts { gain: 7, label: "c".into() });
+    let router = router.with_json(long_route(), mk(long_route(), c));
     if wrapped {
         router.with_middleware(gate_mw)
     } else {
@@ -565,8 +638,8 @@ fn expected_outcome(rt: &RouteSpec, path: &str, bfmt: u16, body: &[u8]) -> Outco
                     4 => Outcome { dec: DecClass::Ok, exp: Exp::Stateful, closure: Some(name), cl: "any".into() },
                     5 => done(Exp::Ok { bfmt: 2, body: serde_json::to_vec(&json!({"gated": v})).unwrap() }),
                     _ => {
-                        if v.get("fail").is_some() {
-                            done(Exp::Ec(4096))
+                        if let Some((_, n)) = fail_code(&v) {
+                            done(Exp::Ec(n))
                         } else {
                             done(Exp::Ok { bfmt: 2, body: serde_json::to_vec(&json!({"route": name, "got": v})).unwrap() })
                         }
@@ -626,7 +699,8 @@ fn expected_outcome(rt: &RouteSpec, path: &str, bfmt: u16, body: &[u8]) -> Outco
         }
         HK::Custom => {
             if body.first() == Some(&b'!') {
-                Outcome { dec: DecClass::Ok, exp: Exp::Ec(7), closure: Some(name), cl: "err:7".into() }
+                let n = repe_error_by_letter(body.get(1).copied().unwrap_or(0), body.get(2).copied().unwrap_or(0)).1;
+                Outcome { dec: DecClass::Ok, exp: Exp::Ec(n), closure: Some(name), cl: format!("err:{}", n) }
             } else {
                 done(Exp::Ok { bfmt: 1234, body: body.to_vec() })
             }
@@ -634,6 +708,12 @@ fn expected_outcome(rt: &RouteSpec, path: &str, bfmt: u16, body: &[u8]) -> Outco
         HK::Registry => {
             let stateful = Outcome { dec: DecClass::Ok, exp: Exp::Stateful, closure: None, cl: "any".into() };
             if body.is_empty() {
+                // the deep document is never written: a read below it is the harness's own walk of the same document
+                if let Some(rel) = path.strip_prefix("/reg/deep") {
+                    let exp = match deep_doc(DEEP_LEVELS).pointer(rel) { Some(v) => Exp::Ok { bfmt: 2, body: serde_json::to_vec(v).unwrap() }, None => Exp::Ec(6) };
+                    let cl = match &exp { Exp::Ec(c) => format!("err:{}", c), _ => "ok".to_string() };
+                    return Outcome { dec: DecClass::Ok, exp, closure: None, cl };
+                }
                 return stateful;
             }
             let ok = match bfmt {
@@ -655,6 +735,17 @@ fn expected_outcome(rt: &RouteSpec, path: &str, bfmt: u16, body: &[u8]) -> Outco
                 Outcome { dec: DecClass::Ok, exp, closure: None, cl }
             };
             if body.is_empty() {
+                if rt.var == 2 {
+                    // read-only derived struct: the listed members, the whole struct, anything else is not a member
+                    let exp = match CONST_PATHS.iter().find(|(p, _, _)| *p == path) {
+                        Some((_, val, 0)) => Exp::Ok { bfmt: 2, body: val.as_bytes().to_vec() },
+                        Some((_, _, code)) => Exp::Ec(*code),
+                        None if path == "/const" => Exp::Ok { bfmt: 2, body: serde_json::to_vec(&serde_json::to_value(Consts { gain: 7, label: "c".into() }).unwrap()).unwrap() },
+                        None => Exp::Ec(6),
+                    };
+                    let cl = match &exp { Exp::Ec(c) => format!("err:{}", c), _ => "ok".to_string() };
+                    return Outcome { dec: DecClass::Ok, exp, closure: None, cl };
+                }
                 return if rt.var == 1 { tree(None) } else { stateful };
             }
             match dec_value(bfmt, body) {
@@ -669,7 +760,7 @@ fn expected_outcome(rt: &RouteSpec, path: &str, bfmt: u16, body: &[u8]) -> Outco
 /// The gate middleware of the wrapped routers answers some requests itself (before any handler).
 fn gate_outcome(body: &[u8]) -> Option<Exp> {
     if body.starts_with(b"#mw-err") {
-        Some(Exp::Ec(8))
+        Some(Exp::Ec(body.get(7).map(|l| repe_error_by_letter(*l, body.get(8).copied().unwrap_or(0)).1).unwrap_or(8)))
     } else if body.starts_with(b"#mw-own") {
         Some(Exp::Ok { bfmt: 3, body: b"short".to_vec() })
     } else {
@@ -710,7 +801,7 @@ fn gen_value(r: &mut Rng, depth: u32) -> Value {
         2 => json!(gen_i64(r)),
         3 => json!(r.boundary(64)),
         4 => json!(gen_string(r)),
-        5 => json!({"fail": true}),
+        5 => if r.chance(1, 3) { json!({"fail": true}) } else { json!({"fail": r.below(11)}) },
         6 => Value::Array((0..r.below(4)).map(|_| gen_value(r, depth + 1)).collect()),
         7 => json!({"a": gen_i64(r), "b": gen_string(r)}),
         _ => {
@@ -757,7 +848,7 @@ fn tailored_body(r: &mut Rng, hk: HK, path: &str) -> (u16, Vec<u8>) {
         HK::Custom => {
             let n = r.below(20) as usize;
             let mut b = r.bytes(n);
-            match r.below(4) { 0 => b.insert(0, b'!'), 1 => b.insert(0, b'e'), _ => {} }
+            match r.below(4) { 0 => { b.insert(0, *r.pick(ERR_LETTERS)); b.insert(0, b'!') } 1 => b.insert(0, b'e'), _ => {} }
             (*r.pick(&[0u16, 1, 2, 3, 77]), b)
         }
         HK::Registry => match r.below(4) {
@@ -807,7 +898,7 @@ fn generic_body(r: &mut Rng) -> (u16, Vec<u8>) {
         // text-framed bodies that are JSON except for bytes that are not UTF-8 (every decoder must refuse them alike)
         11 => (*r.pick(&[3u16, 3, 2]), r.pick(&[&b"{\"a\":7,\"b\":\"a\xffb\"}"[..], &b"{\"s\":\"\xed\xa0\x80\"}"[..], &b"\"\xf8\x88\x80\x80\x80\""[..], &b"{\"a\":1,\"b\":\"\xc0\xaf\"}"[..]]).to_vec()),
         // answered or refused by the gate middleware on the wrapped routers, undecodable on the bare ones
-        12 => (*r.pick(&[2u16, 1, 0]), r.pick(&[&b"#mw-err"[..], &b"#mw-own"[..], &b"#mw-own and more"[..]]).to_vec()),
+        12 => (*r.pick(&[2u16, 1, 0]), match r.below(4) { 0 => b"#mw-err".to_vec(), 1 => b"#mw-own".to_vec(), 2 => b"#mw-own and more".to_vec(), _ => { let mut v = b"#mw-err".to_vec(); v.push(*r.pick(ERR_LETTERS)); v.push(r.next() as u8); v } }),
         // BEVE bodies cut short / with a trailing byte; a typed array of the wrong element type
         13 => {
             let mut b = match r.below(3) { 0 => enc_f64s(&[1.0, 2.0]), 1 => enc_u32s(&[1, 2, 3]), _ => beve::to_vec(&TIn { a: 1, b: "t".into() }).unwrap() };
@@ -867,7 +958,12 @@ fn gen_request(r: &mut Rng, id: u64) -> ReqSpec {
     let query: Vec<u8> = match r.below(10) {
         0 | 1 => r.pick(ODD_PATHS).to_vec(),
         2 | 3 => r.pick(MOUNT_PATHS).as_bytes().to_vec(),
-        4 => gen_tree_path(r).into_bytes(),
+        4 => match r.below(4) {
+            0 => r.pick(CONST_PATHS).0.as_bytes().to_vec(),
+            1 => { let d = *r.pick(&[0usize, 1, 10, 19, 20]); let tail = *r.pick(&["", "", "/d", "/x", "/a"]); format!("/reg/deep{}{}", "/a".repeat(d), tail).into_bytes() }
+            _ => gen_tree_path(r).into_bytes(),
+        },
+        9 if r.chance(1, 8) => long_route().as_bytes().to_vec(),
         9 if r.chance(1, 6) => format!("/missing/{}", "p".repeat(*r.pick(&[300usize, 9000, 70_000]))).into_bytes(),
         _ => loop {
             let rt = r.pick(EXACT);
@@ -889,6 +985,10 @@ fn gen_request(r: &mut Rng, id: u64) -> ReqSpec {
     // must not swallow a write the bare routers perform
     if matches!(route, Some(rt) if (matches!(rt.hk, HK::Registry | HK::Struct) && rt.var != 1)) && gate_outcome(&body).is_some() {
         body[0] = b'%';
+    }
+    // the read-only mounts stay read-only: no body
+    if query.starts_with(b"/const") || query.starts_with(b"/reg/deep") {
+        body.clear();
     }
     // any body under a body-format code the kind may not accept
     let bfmt = if r.chance(1, 12) { *r.pick(&[0u16, 4, 5, 255, 256, 999, 4095, 4096, 65535]) } else { bfmt };
@@ -926,8 +1026,12 @@ fn normalised(r: &Result<Message, RepeError>, req_query: &[u8]) -> String {
     }
 }
 
+/// Bytes of an observation: short ones in hex, long ones as `#<length>:<FNV-1a 64>` (the model prints the same).
+fn show_bytes(b: &[u8]) -> String {
+    if b.len() > 256 { format!("#{}:{}", b.len(), fnv(b)) } else { hex(b) }
+}
 fn show_resp(f: &RawFrame) -> String {
-    format!("{},{},{},{},{},{}", f.h.id, f.h.ec, f.h.query_format, hex(&f.query), f.h.body_format, if f.h.ec != 0 { "E".to_string() } else { hex(&f.body) })
+    format!("{},{},{},{},{},{}", f.h.id, f.h.ec, f.h.query_format, show_bytes(&f.query), f.h.body_format, if f.h.ec != 0 { "E".to_string() } else { show_bytes(&f.body) })
 }
 
 // ------------------------------------------------------------------------------------------
@@ -952,7 +1056,13 @@ struct Endpoint {
 impl Endpoint {
     /// endpoints that serve only some sequences (their registry / struct state lags behind the others')
     fn partial(&self) -> bool {
-        matches!(self.name, "tcpx" | "tcpy" | "tcpz" | "atcpz" | "wsq")
+        matches!(self.name, "tcpx" | "tcpy" | "tcpz" | "atcpz" | "wsq" | "wsl")
+    }
+    /// A response on this endpoint may be another property's refusal (C17: a response over the assumed peer frame limit
+    /// is replaced by an InternalError carrying the same id): C03's count / id / order / invocation clauses still apply
+    /// to it, the expected content does not.
+    fn foreign_refusal(&self, f: &RawFrame) -> bool {
+        self.name == "wsl" && f.h.ec == 9
     }
     /// Events that tell when every dispatched handler has finished: pipeline exits (wrapped) / closure entries (bare).
     fn progress(&self) -> u64 {
@@ -985,10 +1095,10 @@ fn start_servers() -> Servers {
     for (name, wt, rtm, nodelay, wrapped) in [("tcp", None, None, true, true), ("tcpw", Some(Duration::from_secs(20)), long, true, true), ("tcpx", None, None, false, true), ("tcpn", None, None, true, false),
         ("tcpy", None, long, false, false), ("tcpz", Some(Duration::from_secs(20)), None, true, false), ("tcps", None, short, true, false)] {
         let c = Counters::default();
-        let listener = std::net::TcpListener::bind("127.0.0.1:0").unwrap();
-        let addr = listener.local_addr().unwrap();
         let router = make_router(&c, wrapped);
         let srv = repe::Server::new(router.clone()).write_timeout(wt).read_timeout(rtm).tcp_nodelay(nodelay);
+        let listener = srv.listen("127.0.0.1:0").unwrap();
+        let addr = listener.local_addr().unwrap();
         std::thread::spawn(move || {
             let _ = srv.serve(listener);
         });
@@ -999,7 +1109,7 @@ fn start_servers() -> Servers {
         let r = make_router(&c, wrapped);
         let router = r.clone();
         let addr = rt.block_on(async {
-            let l = tokio::net::TcpListener::bind("127.0.0.1:0").await.unwrap();
+            let l = repe::AsyncServer::listen("127.0.0.1:0").await.unwrap();
             let a = l.local_addr().unwrap();
             tokio::spawn(async move {
                 let _ = repe::AsyncServer::new(r).write_timeout(wt).read_timeout(rtm).serve(l).await;
@@ -1013,7 +1123,7 @@ fn start_servers() -> Servers {
         let r = make_router(&c, true);
         let router = r.clone();
         let addr = rt.block_on(async {
-            let l = tokio::net::TcpListener::bind("127.0.0.1:0").await.unwrap();
+            let l = repe::websocket_server::WebSocketServer::listen("127.0.0.1:0").await.unwrap();
             let a = l.local_addr().unwrap();
             tokio::spawn(async move {
                 let mut s = repe::websocket_server::WebSocketServer::new(r);
@@ -1051,6 +1161,31 @@ fn start_servers() -> Servers {
             a
         });
         eps.push(Endpoint { name: "wsn", kind: Kind::Ws, wrapped: false, addr, counters: c, router });
+    }
+    {
+        let c = Counters::default();
+        let r = make_router(&c, false);
+        let router = r.clone();
+        let addr = rt.block_on(async {
+            let l = tokio::net::TcpListener::bind("127.0.0.1:0").await.unwrap();
+            let a = l.local_addr().unwrap();
+            let limits = repe::websocket_limits::WebSocketLimits::default().with_assumed_peer_frame_limit(Some(4096));
+            let shared = repe::websocket_server::WebSocketServer::new(r).with_limits(limits).into_shared();
+            tokio::spawn(async move {
+                loop {
+                    let Ok((stream, _)) = l.accept().await else { break };
+                    let _ = stream.set_nodelay(true);
+                    let sh = shared.clone();
+                    tokio::spawn(async move {
+                        if let Ok((ws, hs)) = sh.accept_with_handshake(stream, "/repe").await {
+                            let _ = sh.serve_connection_with_handshake(ws, hs).await;
+                        }
+                    });
+                }
+            });
+            a
+        });
+        eps.push(Endpoint { name: "wsl", kind: Kind::Ws, wrapped: false, addr, counters: c, router });
     }
     // `wsb`: a WebSocket server on a runtime whose blocking pool has ONE thread (off-reader handlers queue up)
     // `wsq`: bare router, outbound channel of ONE message, unbounded off-reader limit, TWO blocking threads
@@ -1458,16 +1593,26 @@ fn run_sequence(out: &mut Out, sv: &Servers, probe: &Probes, seqno: usize, reqs:
             let gate = gate_outcome(&r.body);
             let exp_w = gate.clone().unwrap_or_else(|| oc.exp.clone());
             let wire = r.wire();
-            let view = MessageView::from_slice(&wire).expect("well-framed");
-            let ctx = CallContext::detached(path);
             let msg = Message { header: h, query: r.query.clone(), body: r.body.clone() };
-            let four = [
-                ("wrapped.handle_view", catch(|| hw.handle_view(&view, &ctx)), &exp_w),
-                ("wrapped.handle_with_ctx", catch(|| hw.handle_with_ctx(&msg, &ctx)), &exp_w),
-                ("bare.handle_view", catch(|| hn.handle_view(&view, &ctx)), &oc.exp),
-                ("bare.handle_with_ctx", catch(|| hn.handle_with_ctx(&msg, &ctx)), &oc.exp),
-            ];
             let pops = [format!("probe {} {} {}", hex(&r.query), r.h.body_format, hex(&r.body))];
+            // the four calls into the crate run under a watchdog: a handler that never returns is reported, not waited for
+            let (hw2, hn2, path2) = (hw.clone(), hn.clone(), path.to_string());
+            let called = guarded(move || {
+                let view = MessageView::from_slice(&wire).expect("well-framed");
+                let ctx = CallContext::detached(&path2);
+                [catch(|| hw2.handle_view(&view, &ctx)), catch(|| hw2.handle_with_ctx(&msg, &ctx)), catch(|| hn2.handle_view(&view, &ctx)), catch(|| hn2.handle_with_ctx(&msg, &ctx))]
+            });
+            let stuck = called.is_none();
+            if stuck {
+                out.oracle_fail("dispatch.probe.call_never_returned", &format!("route {:?}: handle_view / handle_with_ctx did not return within 12 s", path), &pops);
+            }
+            let [c0, c1, c2, c3] = called.unwrap_or_else(|| [Err("stuck".into()), Err("stuck".into()), Err("stuck".into()), Err("stuck".into())]);
+            let four = [
+                ("wrapped.handle_view", c0, &exp_w),
+                ("wrapped.handle_with_ctx", c1, &exp_w),
+                ("bare.handle_view", c2, &oc.exp),
+                ("bare.handle_with_ctx", c3, &oc.exp),
+            ];
             if four.iter().all(|(_, r, _)| r.is_ok()) {
                 let res: Vec<&Result<Message, RepeError>> = four.iter().map(|(_, r, _)| r.as_ref().unwrap()).collect();
                 // A handler has two entry points (borrowed view / owned message); which one a request reaches depends
@@ -1489,7 +1634,8 @@ fn run_sequence(out: &mut Out, sv: &Servers, probe: &Probes, seqno: usize, reqs:
                 }
                 // shape of a built-in handler's success response (model: `builtinResponse`): request id, known query
                 // format or raw binary, ec 0, no query, consistent lengths
-                if rt.hk != HK::Custom && gate.is_none() {
+                // (a closure may return `ErrorCode::Ok` as its error code: that is an error-shaped message with ec 0)
+                if rt.hk != HK::Custom && gate.is_none() && matches!(oc.exp, Exp::Ok { .. } | Exp::Stateful) {
                     for x in [res[2], res[3]] {
                         if let Ok(m) = x {
                             let hh = &m.header;
@@ -1500,7 +1646,8 @@ fn run_sequence(out: &mut Out, sv: &Servers, probe: &Probes, seqno: usize, reqs:
                     }
                 }
                 let s: Vec<String> = res.iter().map(|x| hout_str(x)).collect();
-                toks = (s[0].clone(), s[1].clone(), if s[2] == s[0] { "=".into() } else { s[2].clone() }, if s[3] == s[1] { "=".into() } else { s[3].clone() });
+                // `=`: the owned outcome equals the borrowed one (`ho`), the bare router's equals the wrapped one's (`hvn`, `hon`)
+                toks = (s[0].clone(), if s[1] == s[0] { "=".into() } else { s[1].clone() }, if s[2] == s[0] { "=".into() } else { s[2].clone() }, if s[3] == s[1] { "=".into() } else { s[3].clone() });
             } else {
                 // handler panics are C16's subject: keep them out of C03 observations
                 out.count("dispatch.probe_panicked_skipped");
@@ -1543,7 +1690,7 @@ fn run_sequence(out: &mut Out, sv: &Servers, probe: &Probes, seqno: usize, reqs:
         "wsp" => pressure, // the single-slot WebSocket server is only interesting under pressure (and slow otherwise)
         "ws" => !pressure,
         "tcpx" | "tcpy" => extra_x, // Nagle on: slow, a few short sequences only
-        "tcpz" | "atcpz" | "wsq" => extra_k, // further knob pairs, some sequences
+        "tcpz" | "atcpz" | "wsq" | "wsl" => extra_k, // further knob pairs, some sequences
         _ => true,
     }).collect();
     let runs: Vec<EpRun> = std::thread::scope(|sc| {
@@ -1605,13 +1752,14 @@ fn run_sequence(out: &mut Out, sv: &Servers, probe: &Probes, seqno: usize, reqs:
         // every response against the independent expectation, and the echo rule
         for (k, r) in reqs.iter().enumerate() {
             let Some(f) = t.frames.iter().find(|f| f.h.id == r.h.id) else { continue };
+            if run.ep.foreign_refusal(f) { continue; }
             let mut want_q: &[u8] = &r.query;
             if let Some((rt, ew, en, gated)) = &exps[k] {
                 let exp = if run.ep.wrapped { ew } else { en };
                 if let Some(what) = exp_mismatch(exp, f.h.ec, f.h.body_format, if f.h.ec == 0 { &f.body[..] } else { &[][..] }) {
                     out.oracle_fail(&format!("{}.{}.expect.{}.{}", pfx, name, rt.hk.token(), what.split(':').next().unwrap()), &format!("request id {} to {:?}: {}", r.h.id, String::from_utf8_lossy(&r.query), what), &all_ops);
                 }
-                if rt.hk == HK::Custom && !(run.ep.wrapped && *gated) && f.h.ec == 0 && r.body.first() != Some(&b'e') { want_q = OWN_QUERY; }
+                if rt.hk == HK::Custom && !(run.ep.wrapped && *gated) && matches!(exp, Exp::Ok { .. }) && r.body.first() != Some(&b'e') { want_q = OWN_QUERY; }
             } else {
                 // rejected at routing: the specified code
                 let want = if r.h.version != 1 { 1 } else if r.h.query_format != 1 || !utf8(&r.query) { 3 } else { 6 };
@@ -1637,7 +1785,8 @@ fn run_sequence(out: &mut Out, sv: &Servers, probe: &Probes, seqno: usize, reqs:
                 let base = if gated { ref_of(run.ep.wrapped) } else { 0 };
                 // `tcpx` serves only some sequences, so its registry / struct state lags behind the others'
                 let stateful = matches!(&exps[k], Some((rt, _, _, _)) if (matches!(rt.hk, HK::Registry | HK::Struct) && rt.var != 1));
-                if got[i] != got[base] && !(stateful && run.ep.partial()) { differ.push(run.ep.name); }
+                let foreign = got[i].map(|f| run.ep.foreign_refusal(f)).unwrap_or(false);
+                if got[i] != got[base] && !(stateful && run.ep.partial()) && !foreign { differ.push(run.ep.name); }
             }
             if !differ.is_empty() {
                 out.oracle_fail(&format!("{}.transports_disagree.{}", pfx, differ.join("+")), &format!("request id {}: the response on {:?} differs from the one on {}", r.h.id, differ, runs[0].ep.name), &all_ops);
@@ -1666,6 +1815,7 @@ fn run_sequence(out: &mut Out, sv: &Servers, probe: &Probes, seqno: usize, reqs:
     if pressure { out.count("dispatch.pressure_sequences"); }
     if params.chunk != 0 { out.count("dispatch.chunked_sequences"); }
     // ---- a connection that has served other requests answers like a fresh one ---------------------
+    let t_fresh = Instant::now();
     if !pressure && seqno % 4 == 1 && healthy {
         let pick = reqs.iter().enumerate().rev().find(|(k, r)| *k > 0 && r.h.notify != 1 && r.query != b"/slow" && !matches!(&exps[*k], Some((rt, _, _, _)) if (matches!(rt.hk, HK::Registry | HK::Struct) && rt.var != 1)));
         if let Some((_, r)) = pick {
@@ -1686,6 +1836,7 @@ fn run_sequence(out: &mut Out, sv: &Servers, probe: &Probes, seqno: usize, reqs:
             }
         }
     }
+    out.add("dispatch.ms.fresh_vs_reused", t_fresh.elapsed().as_millis() as u64);
 }
 
 // ------------------------------------------------------------------------------------------
@@ -1776,7 +1927,7 @@ fn dup_ids(out: &mut Out, sv: &Servers, id: u64, n: usize, seqno: usize) {
         ReqSpec { h: f.h, query: b"/json".to_vec(), body, pings: 0 }
     }).collect();
     let want: Vec<Vec<u8>> = (0..n).map(|k| serde_json::to_vec(&json!({"route": "/json", "got": [k]})).unwrap()).collect();
-    for ep in sv.eps.iter().filter(|e| !matches!(e.name, "wsb" | "wsp" | "tcpx" | "tcpy" | "tcps" | "atcps")) {
+    for ep in sv.eps.iter().filter(|e| !matches!(e.name, "wsb" | "wsp" | "tcpx" | "tcpy" | "tcps" | "atcps" | "wsl")) {
         let ev = n as u64;
         let t = match ep.kind { Kind::Tcp => run_tcp(ep, &reqs, &[id], ev, Duration::ZERO, SeqParams::default()), Kind::Ws => run_ws(sv, ep, &reqs, &[id], ev, Duration::ZERO, SeqParams::default()) };
         let got: Vec<Vec<u8>> = t.frames.iter().map(|f| f.body.clone()).collect();
@@ -1850,7 +2001,7 @@ fn offreader_backpressure(out: &mut Out, sv: &Servers, epname: &str, m: usize, s
 /// (i) A sender that stalls in the middle of a frame for longer than the server's configured read timeout (300 ms).
 /// The server may give the connection up; what it must not do is lose or reorder the answers to the requests it had
 /// received in full before, or answer anything twice. With a stall shorter than the timeout everything is answered.
-fn stalled_sender(out: &mut Out, sv: &Servers, epname: &str, k: usize, cut: usize, long: bool, seqno: usize) {
+fn stalled_sender(out: &mut Rec, sv: &Servers, epname: &str, k: usize, cut: usize, long: bool, seqno: usize) {
     let ep = sv.ep(epname);
     let ops = vec![format!("stall {} {} {} {} {}", seqno, epname, k, cut, long as u8)];
     let Ok(mut s) = std::net::TcpStream::connect(ep.addr) else { out.count("dispatch.stall.connect_failed"); return };
@@ -1916,7 +2067,7 @@ fn tcp_inline_panic(out: &mut Out, sv: &Servers, epname: &str, payload: &str, se
 /// a connection that is already open keeps being served. `graceful = true`: `serve_listener_with_graceful_drain`
 /// cancels the readers; the responses of requests that were dispatched before (client not reading, writer blocked,
 /// queue non-empty) must still be delivered by the drain.
-fn shutdown_midflight(out: &mut Out, sv: &Servers, graceful: bool, n: usize, seqno: usize) {
+fn shutdown_midflight(out: &mut Rec, sv: &Servers, graceful: bool, n: usize, seqno: usize) {
     use tokio_tungstenite::tungstenite::Message as WsMsg;
     let ops = vec![format!("shutdown {} {} {}", seqno, graceful as u8, n)];
     let c = Counters::default();
@@ -1976,7 +2127,7 @@ fn shutdown_midflight(out: &mut Out, sv: &Servers, graceful: bool, n: usize, seq
 /// extra ones (refuse with ResourceExhausted or run them), C03 still says: every request id gets exactly one response,
 /// a request that was answered with a refusal did not have its handler run, a request whose handler ran is answered
 /// with the handler's result. `limit == 0`: the server's default cap (16).
-fn saturate(out: &mut Out, sv: &Servers, limit: usize, extra: usize, wrapped: bool, seqno: usize) {
+fn saturate(out: &mut Rec, sv: &Servers, limit: usize, extra: usize, wrapped: bool, seqno: usize) {
     use tokio_tungstenite::tungstenite::Message as WsMsg;
     let ops = vec![format!("saturate {} {} {} {}", seqno, limit, extra, wrapped as u8)];
     let c = Counters::default();
@@ -2054,6 +2205,107 @@ fn saturate(out: &mut Out, sv: &Servers, limit: usize, extra: usize, wrapped: bo
     }
 }
 
+/// (s) Deliveries that stall for longer than any plausible internal timer, on endpoints whose configured read timeout
+/// is none or 30 s: k whole requests, a frame cut mid-way, a stall, the rest, a sentinel. Nothing may be lost,
+/// duplicated or reordered. All (endpoint, stall) pairs run at once, so the wall time is the longest stall.
+fn long_stalls(out: &mut Out, sv: &Servers, stalls: &[u64], seqno: usize) {
+    use tokio_tungstenite::tungstenite::protocol::frame::{coding::{Data, OpCode}, Frame, FrameHeader};
+    use tokio_tungstenite::tungstenite::Message as WsMsg;
+    let results: Vec<(String, u64, Vec<u64>, Vec<u64>)> = std::thread::scope(|sc| {
+        let mut hs = Vec::new();
+        for (j, ep) in sv.eps.iter().filter(|e| matches!(e.name, "tcp" | "tcpw" | "tcpn" | "atcp" | "atcpn" | "ws" | "wsn")).enumerate() {
+            for (i, st) in stalls.iter().enumerate() {
+                let (st, base) = (*st, 1_000_000 + (j * 10 + i) as u64 * 100);
+                hs.push(sc.spawn(move || {
+                    let k = 2 + (i + j) % 3;
+                    let cut = [8usize, 48, 50, 55][(i + j) % 4];
+                    let frames: Vec<Vec<u8>> = (0..=k as u64).map(|n| RawFrame::request(base + n, false, 1, b"/json", 2, format!("[{}]", n).as_bytes()).to_vec()).collect();
+                    let want: Vec<u64> = (0..=k as u64).map(|n| base + n).collect();
+                    let mut ids = Vec::new();
+                    match ep.kind {
+                        Kind::Tcp => {
+                            if let Ok(mut s) = std::net::TcpStream::connect(ep.addr) {
+                                s.set_nodelay(true).ok();
+                                let mut wire: Vec<u8> = frames[..k].concat();
+                                wire.extend(&frames[k][..cut]);
+                                let _ = s.write_all(&wire);
+                                std::thread::sleep(Duration::from_millis(st));
+                                let _ = s.write_all(&frames[k][cut..]);
+                                let _ = s.write_all(&sentinel(S1));
+                                let mut bytes = Vec::new();
+                                let mut tmp = [0u8; 65536];
+                                s.set_read_timeout(Some(Duration::from_secs(10))).ok();
+                                loop {
+                                    match s.read(&mut tmp) { Ok(0) | Err(_) => break, Ok(n) => bytes.extend_from_slice(&tmp[..n]) }
+                                    if RawFrame::split_stream(&bytes).0.iter().any(|f| f.h.id == S1) { break; }
+                                }
+                                ids = RawFrame::split_stream(&bytes).0.iter().map(|f| f.h.id).filter(|i| *i != S1).collect();
+                            }
+                        }
+                        Kind::Ws => {
+                            ids = sv.rt.block_on(async {
+                                let mut ids = Vec::new();
+                                let Some(mut ws) = ws_connect(ep.addr).await else { return ids };
+                                for f in &frames[..k] { let _ = ws.send(WsMsg::Binary(f.clone())).await; }
+                                // the last request as two message fragments with the stall in between
+                                let h1 = FrameHeader { is_final: false, opcode: OpCode::Data(Data::Binary), ..FrameHeader::default() };
+                                let h2 = FrameHeader { is_final: true, opcode: OpCode::Data(Data::Continue), ..FrameHeader::default() };
+                                let _ = ws.send(WsMsg::Frame(Frame::from_payload(h1, frames[k][..cut].to_vec()))).await;
+                                tokio::time::sleep(Duration::from_millis(st)).await;
+                                let _ = ws.send(WsMsg::Frame(Frame::from_payload(h2, frames[k][cut..].to_vec()))).await;
+                                let _ = ws.send(WsMsg::Binary(sentinel(S1))).await;
+                                loop {
+                                    match tokio::time::timeout(Duration::from_secs(10), ws.next()).await {
+                                        Ok(Some(Ok(WsMsg::Binary(b)))) => match RawHeader::parse(&b) { Some(h) if h.id == S1 => break, Some(h) => ids.push(h.id), None => break },
+                                        Ok(Some(Ok(_))) => {}
+                                        _ => break,
+                                    }
+                                }
+                                ids
+                            });
+                        }
+                    }
+                    (ep.name.to_string(), st, ids, want)
+                }));
+            }
+        }
+        hs.into_iter().map(|h| h.join().expect("stall runner")).collect()
+    });
+    for (name, st, ids, want) in results {
+        if ids != want {
+            out.oracle_fail(&format!("dispatch.{}.lost_after_long_stall", name), &format!("a frame delivered in two pieces {} ms apart: responses {:?}, expected {:?}", st, ids, want), &[format!("longstall {} {}", seqno, stalls.iter().map(|s| s.to_string()).collect::<Vec<_>>().join(","))]);
+        } else {
+            out.count(&format!("dispatch.long_stall.ok.{}", st));
+        }
+    }
+}
+
+/// (q) Many connections to one server at the same moment (12), each with its own pipelined requests: every connection
+/// gets exactly its own responses, in its own order.
+fn many_connections(out: &mut Out, sv: &Servers, epname: &str, conns: usize, seqno: usize) {
+    let ep = sv.ep(epname);
+    let results: Vec<(Vec<(u64, Vec<u8>)>, Vec<(u64, Vec<u8>)>)> = std::thread::scope(|sc| {
+        let hs: Vec<_> = (0..conns).map(|cidx| sc.spawn(move || {
+            let base = 2_000_000 + cidx as u64 * 1000;
+            let k = 3 + cidx % 5;
+            let reqs: Vec<ReqSpec> = (0..k as u64).map(|n| { let body = format!("[{},{}]", cidx, n).into_bytes(); let f = RawFrame::request(base + n, n % 4 == 3, 1, b"/json", 2, &body); ReqSpec { h: f.h, query: b"/json".to_vec(), body, pings: 0 } }).collect();
+            let want: Vec<(u64, Vec<u8>)> = reqs.iter().filter(|r| r.h.notify != 1).map(|r| (r.h.id, serde_json::to_vec(&json!({"route": "/json", "got": serde_json::from_slice::<Value>(&r.body).unwrap()})).unwrap())).collect();
+            let ids: Vec<u64> = want.iter().map(|w| w.0).collect();
+            // the endpoint's progress counter is shared by all connections: ask for no handler-exit count here
+            let t = match ep.kind { Kind::Tcp => run_tcp(ep, &reqs, &ids, 0, Duration::ZERO, SeqParams::default()), Kind::Ws => run_ws(sv, ep, &reqs, &ids, 0, Duration::ZERO, SeqParams::default()) };
+            (t.frames.iter().map(|f| (f.h.id, f.body.clone())).collect(), want)
+        })).collect();
+        hs.into_iter().map(|h| h.join().expect("connection runner")).collect()
+    });
+    let bad = results.iter().filter(|(got, want)| got != want).count();
+    if bad > 0 {
+        let (got, want) = results.iter().find(|(g, w)| g != w).unwrap();
+        out.oracle_fail(&format!("dispatch.{}.concurrent_connections", epname), &format!("{} of {} simultaneous connections did not get exactly their own responses in order; one got ids {:?}, expected {:?}", bad, conns, got.iter().map(|g| g.0).collect::<Vec<_>>(), want.iter().map(|g| g.0).collect::<Vec<_>>()), &[format!("manyconn {} {} {}", seqno, epname, conns)]);
+    } else {
+        out.count("dispatch.many_connections.ok");
+    }
+}
+
 /// (j) Observer threads: route lookups and `execution()` on the very routers the servers dispatch through, all the
 /// time the sequences run. Every observation must be the registered table's answer.
 fn spawn_observers(sv: &Servers, stop: Arc<std::sync::atomic::AtomicBool>, bad: Arc<Mutex<Vec<String>>>, seen: Arc<std::sync::atomic::AtomicU64>) -> Vec<std::thread::JoinHandle<()>> {
@@ -2088,7 +2340,7 @@ fn gen_pressure(r: &mut Rng, base_id: u64) -> Vec<ReqSpec> {
         let spec = match r.below(6) {
             0 | 1 => {
                 // big echo through an inline JSON route
-                let len = *r.pick(&[20_000usize, 70_000, 150_000]);
+                let len = *r.pick(&[4_000usize, 20_000, 70_000, 70_000, 150_000]);
                 let body = format!("\"{}\"", "x".repeat(len)).into_bytes();
                 mk(RawFrame::request(id, false, 1, b"/json", 2, &body))
             }
@@ -2152,6 +2404,31 @@ fn gen_run(r: &mut Rng, base_id: u64, thorough: bool) -> (Vec<ReqSpec>, u64) {
     (v, if n >= 255 && r.chance(1, 2) { 300 } else { 0 })
 }
 
+/// (p) Every error a callback can hand to the dispatch layer, once each, on one connection: the custom handler's
+/// `Err(RepeError)` of every variant (`Io` with every kind of the list), the gate middleware's, and every `ErrorCode` a
+/// closure can return.
+fn gen_error_sweep(base_id: u64) -> Vec<ReqSpec> {
+    let mk = |id: u64, path: &[u8], bf: u16, body: Vec<u8>| { let f = RawFrame::request(id, false, 1, path, bf, &body); ReqSpec { h: f.h, query: path.to_vec(), body, pings: 0 } };
+    let mut v = Vec::new();
+    let mut id = base_id;
+    let mut next = || { id += 1; id };
+    for l in ERR_LETTERS {
+        if *l == b'i' {
+            for k in 0..IO_KINDS.len() as u8 { v.push(mk(next(), b"/custom", 0, vec![b'!', b'i', k])); }
+        } else {
+            v.push(mk(next(), b"/custom", 0, vec![b'!', *l]));
+        }
+        let mut g = b"#mw-err".to_vec();
+        g.push(*l);
+        g.push(3 + (*l % 2)); // Io: WouldBlock / TimedOut
+        v.push(mk(next(), b"/json", 2, g));
+    }
+    for n in 0..11 {
+        v.push(mk(next(), if n % 2 == 0 { b"/json" } else { b"/json_b" }, 2, format!("{{\"fail\":{}}}", n).into_bytes()));
+    }
+    v
+}
+
 /// (h) frames whose sizes sit just below / at / just above the crate's internal sizes: the 8 KiB `BufReader` /
 /// `BufWriter` of both TCP servers (whole frames of 8191 / 8192 / 8193 bytes, so that later headers straddle the
 /// buffer end), 16 KiB, 64 KiB, queries of 47 / 48 / 49 bytes, struct paths of 15 / 16 / 17 / 21 segments
@@ -2178,6 +2455,91 @@ fn gen_sized(r: &mut Rng, base_id: u64, thorough: bool) -> Vec<ReqSpec> {
     v
 }
 
+/// (n) Public entry points of the anchored files this family drives, and those it knowingly does not (with the reason).
+/// Anything else the tree under test declares is reported (`not_driven` in stats.json, stderr).
+const DRIVEN: &[(&str, &[&str])] = &[
+    ("server.rs", &["new", "get", "run", "ctx", "peer", "with", "with_json", "with_json_ctx", "with_json_blocking", "with_json_ctx_blocking", "with_typed", "with_typed_ctx",
+        "with_typed_blocking", "with_typed_ctx_blocking", "with_typed_slice", "with_typed_slice_ref", "with_handler", "with_erased_handler", "with_middleware", "register_middleware",
+        "with_registry", "register_registry", "with_struct", "with_struct_shared", "register_struct", "register_struct_shared", "json", "beve", "utf8", "raw_binary",
+        "listen", "serve", "read_timeout", "write_timeout", "tcp_nodelay"]),
+    ("async_server.rs", &["new", "listen", "serve", "read_timeout", "write_timeout"]),
+    ("websocket_server.rs", &["new", "listen", "with_outbound_capacity", "with_offreader_limit", "with_limits", "serve_listener", "serve_listener_with_shutdown",
+        "serve_listener_with_graceful_drain", "into_shared", "accept", "accept_with_handshake", "serve_connection", "serve_connection_with_handshake"]),
+];
+const NOT_DRIVEN: &[(&str, &str, &str)] = &[
+    ("server.rs", "stop", "only ends the accept loop of a server value that `serve(self)` has consumed; no C03 clause"),
+    ("server.rs", "poisoned", "LockError constructor, not on a dispatch path"),
+    ("server.rs", "other", "LockError constructor, not on a dispatch path"),
+    ("websocket_server.rs", "serve", "binds its own address, then serve_listener (driven)"),
+    ("websocket_server.rs", "serve_with_shutdown", "binds its own address, then serve_listener_with_shutdown (driven)"),
+    ("websocket_server.rs", "serve_with_graceful_drain", "binds its own address, then serve_listener_with_graceful_drain (driven)"),
+    ("websocket_server.rs", "accept_with_limits", "reached through accept (driven)"),
+    ("websocket_server.rs", "accept_with_handshake_and_limits", "reached through accept_with_handshake (driven)"),
+    ("websocket_server.rs", "adopt_upgraded", "embedder-side upgrade: C15's family"),
+    ("websocket_server.rs", "adopt_upgraded_partially_read", "embedder-side upgrade: C15's family"),
+    ("websocket_server.rs", "serve_connection_with_cancel", "cancel tokens: C15's family"),
+    ("websocket_server.rs", "serve_connection_with_cancel_and_handshake", "cancel tokens: C15's family"),
+    ("websocket_server.rs", "cancel", "ShutdownToken: C15"), ("websocket_server.rs", "cancelled", "ShutdownToken: C15"), ("websocket_server.rs", "is_cancelled", "ShutdownToken: C15"),
+    ("websocket_server.rs", "on_error", "hooks: C15 / C16"), ("websocket_server.rs", "on_peer_connect", "hooks: C15"), ("websocket_server.rs", "on_peer_connect_with_handshake", "hooks: C15"),
+    ("websocket_server.rs", "on_peer_disconnect", "hooks: C15"), ("websocket_server.rs", "with_peer_registry", "C18"),
+    ("websocket_server.rs", "proxy_connection", "proxy: C17"), ("websocket_server.rs", "proxy_connection_with_limits", "proxy: C17"),
+    ("websocket_server.rs", "derive_accept_key", "handshake helper"), ("websocket_server.rs", "is_websocket_upgrade", "handshake helper"), ("websocket_server.rs", "from_http_request", "handshake helper"),
+    ("websocket_server.rs", "header", "HandshakeContext getter"), ("websocket_server.rs", "headers", "HandshakeContext getter"), ("websocket_server.rs", "path", "HandshakeContext getter"),
+    ("websocket_server.rs", "query", "HandshakeContext getter"), ("websocket_server.rs", "error_code", "ConnectionError getter"), ("websocket_server.rs", "limits", "getter"),
+];
+fn entry_point_audit(out: &mut Out) {
+    let repo = std::env::var("VERIF_REPO").unwrap_or_else(|_| "/repo".into());
+    let mut missing = Vec::new();
+    for (file, driven) in DRIVEN {
+        let text = std::fs::read_to_string(std::path::Path::new(&repo).join("src").join(file)).unwrap_or_default();
+        let text = text.split("#[cfg(test)]").next().unwrap_or("").to_string();
+        for line in text.lines() {
+            let t = line.trim_start();
+            for pre in ["pub async fn ", "pub fn "] {
+                if let Some(rest) = t.strip_prefix(pre) {
+                    let name: String = rest.chars().take_while(|c| c.is_alphanumeric() || *c == '_').collect();
+                    let known = driven.contains(&name.as_str()) || NOT_DRIVEN.iter().any(|(f, n, _)| f == file && *n == name);
+                    let item = format!("{}::{}", file, name);
+                    if !name.is_empty() && !known && !missing.contains(&item) { missing.push(item); }
+                }
+            }
+        }
+    }
+    if !missing.is_empty() {
+        eprintln!("dispatch: public entry points of the anchored files that this family neither drives nor lists as not driven: {:?}", missing);
+        out.add("dispatch.NOT_DRIVEN", missing.len() as u64);
+    }
+    out.extra.insert("not_driven".into(), json!(missing));
+    out.extra.insert("not_driven_by_design".into(), json!(NOT_DRIVEN.iter().map(|(f, n, why)| format!("{}::{} - {}", f, n, why)).collect::<Vec<_>>()));
+}
+
+/// Results of a scenario that runs on its own server / endpoints in the background while the next sequences go on.
+#[derive(Default)]
+struct Rec {
+    fails: Vec<(String, String, Vec<String>)>,
+    counts: Vec<String>,
+}
+impl Rec {
+    fn oracle_fail(&mut self, sig: &str, detail: &str, ops: &[String]) { self.fails.push((sig.to_string(), detail.to_string(), ops.to_vec())); }
+    fn count(&mut self, k: &str) { self.counts.push(k.to_string()); }
+    fn merge(self, out: &mut Out) {
+        for (s, d, o) in self.fails { out.oracle_fail(&s, &d, &o); }
+        for k in self.counts { out.count(&k); }
+    }
+}
+
+/// (o) Run `f` (a call into the crate) on its own thread under a watchdog; `None` = it did not return in time and is
+/// abandoned. Three expiries end the run.
+static EXPIRIES: std::sync::atomic::AtomicU64 = std::sync::atomic::AtomicU64::new(0);
+fn guarded<T: Send + 'static>(f: impl FnOnce() -> T + Send + 'static) -> Option<T> {
+    let (tx, rx) = std::sync::mpsc::channel();
+    std::thread::spawn(move || { let _ = tx.send(f()); });
+    match rx.recv_timeout(Duration::from_secs(12)) {
+        Ok(v) => Some(v),
+        Err(_) => { EXPIRIES.fetch_add(1, std::sync::atomic::Ordering::SeqCst); None }
+    }
+}
+
 fn kv<'a>(line: &'a str, key: &str) -> Option<&'a str> {
     words(line).into_iter().find_map(|w| w.strip_prefix(key).and_then(|r| r.strip_prefix('=')))
 }
@@ -2187,6 +2549,7 @@ fn main() {
     quiet_panics();
     let mut out = Out::new(&args.out);
     out.rule = "pipelined request sequences (length 1..64) over registered (ASCII and non-ASCII) / unregistered / non-UTF-8 / very long paths, every built-in handler kind (json, typed with each TypedResponse format, ctx, bulk slice, borrowed slice incl. the aligned wire form, JsonTypedHandler adapter, registry mounts, struct mounts over Mutex and RwLock, custom erased with own / empty response query, blocking variants), each served by routers behind a counting + gate middleware AND by bare routers, versions {1,0,2,3,127,128,254,255}, notify {0,1,2,3,127..255,random}, query formats {1,0,2,3,255..65535}, body formats 0..5/255/256/999/4095/4096/65535 with bodies tailored to the kind (boundary integers, empty / non-ASCII / 70 KiB strings, 0..1000-element arrays), malformed, truncated, wrong-typed, non-UTF-8, random and empty bodies, ids incl. 0 / 2^32 / 2^63 / u64::MAX, TCP writes in chunks of 0/1/7/48/49/1000 bytes, WebSocket pings between requests; sent raw to the real Server, AsyncServer and WebSocketServer (ten endpoints). Distinct by op line; non-trivial = answered with ec 0".into();
+    entry_point_audit(&mut out);
     let sv = start_servers();
     let probe = Probes { wrapped: make_router(&Counters::default(), true), bare: make_router(&Counters::default(), false) };
     let mut rng = Rng::new(args.seed);
@@ -2194,6 +2557,7 @@ fn main() {
         // replay: rebuild the request sequence (or the scenario) from recorded op lines
         let mut reqs = Vec::new();
         let mut params = SeqParams::default();
+        let mut rec = Rec::default();
         for l in &ops {
             let w = words(l);
             match w.first().copied() {
@@ -2213,11 +2577,13 @@ fn main() {
                 Some("tcpteardown") => tcp_burst_then_garbage(&mut out, &sv, w[2], w[3].parse().unwrap(), 0),
                 Some("dupids") => dup_ids(&mut out, &sv, w[2].parse().unwrap(), w[3].parse().unwrap(), 0),
                 Some("panicws") => panic_offreader(&mut out, &sv, w[2], 0),
-                Some("saturate") => saturate(&mut out, &sv, w[2].parse().unwrap(), w[3].parse().unwrap(), w[4] == "1", 0),
+                Some("longstall") => { let st: Vec<u64> = w[2].split(',').filter_map(|x| x.parse().ok()).collect(); long_stalls(&mut out, &sv, &st, 0) }
+                Some("manyconn") => many_connections(&mut out, &sv, w[2], w[3].parse().unwrap(), 0),
+                Some("saturate") => saturate(&mut rec, &sv, w[2].parse().unwrap(), w[3].parse().unwrap(), w[4] == "1", 0),
                 Some("offfull") => offreader_backpressure(&mut out, &sv, w[2], w[3].parse().unwrap(), w[4].parse().unwrap(), 0),
-                Some("stall") => stalled_sender(&mut out, &sv, w[2], w[3].parse().unwrap(), w[4].parse().unwrap(), w[5] == "1", 0),
+                Some("stall") => stalled_sender(&mut rec, &sv, w[2], w[3].parse().unwrap(), w[4].parse().unwrap(), w[5] == "1", 0),
                 Some("tcppanic") => tcp_inline_panic(&mut out, &sv, w[2], w[3], 0),
-                Some("shutdown") => shutdown_midflight(&mut out, &sv, w[2] == "1", w[3].parse().unwrap(), 0),
+                Some("shutdown") => shutdown_midflight(&mut rec, &sv, w[2] == "1", w[3].parse().unwrap(), 0),
                 Some("probe") | Some("lookup") => {
                     // a probe-level failure: re-run the one request as a sequence of its own
                     let q = unhex(w[1]).unwrap();
@@ -2228,6 +2594,7 @@ fn main() {
                 _ => {}
             }
         }
+        rec.merge(&mut out);
         if !reqs.is_empty() {
             run_sequence(&mut out, &sv, &probe, 0, &reqs, params);
         }
@@ -2240,8 +2607,18 @@ fn main() {
         // a broken tree must give its failing input soon: stop after 12 oracle failures, or after 3 sequences /
         // scenarios that had to wait for something that never came
         let mut slow_failures = 0;
+        // (o) the run itself is bounded: no new sequence once the budget is used up (an unbroken tree needs a fifth of it)
+        let (started, budget) = (Instant::now(), Duration::from_secs(if args.thorough() { 780 } else { 150 }));
+        let sv = &sv;
+        std::thread::scope(|sc| {
+        // scenarios that use only their own server (or the scenario-only endpoints) run in the background, one at a time
+        let mut deferred: Option<std::thread::ScopedJoinHandle<Rec>> = None;
         for s in 0..nseq {
-            if out.oracle_failures >= 12 || slow_failures >= 3 {
+            if out.oracle_failures >= 12 || slow_failures >= 3 || EXPIRIES.load(std::sync::atomic::Ordering::SeqCst) >= 3 {
+                break;
+            }
+            if started.elapsed() > budget {
+                out.count("dispatch.budget_stop");
                 break;
             }
             let (fails0, t0) = (out.oracle_failures, Instant::now());
@@ -2256,6 +2633,9 @@ fn main() {
                 params.stall = stall;
                 out.count("dispatch.run_sequences");
                 v
+            } else if s % 64 == 9 {
+                out.count("dispatch.error_sweeps");
+                gen_error_sweep(base)
             } else if s % 8 == 4 {
                 out.count("dispatch.sized_sequences");
                 gen_sized(&mut rng, base, args.thorough())
@@ -2274,7 +2654,10 @@ fn main() {
                 // byte-at-a-time writes of large bodies are slow without adding anything (thorough does some)
                 if params.chunk == 1 && bytes > if args.thorough() { 60_000 } else { 20_000 } { params.chunk = 49; }
             }
+            let t_seq = Instant::now();
             run_sequence(&mut out, &sv, &probe, s, &reqs, params);
+            out.add(&format!("dispatch.ms.sequences.{}", if pressure { "pressure" } else if s % 8 == 2 { "run" } else if s % 8 == 4 { "sized" } else { "ordinary" }), t_seq.elapsed().as_millis() as u64);
+            let t_scen = Instant::now();
             match s % 16 {
                 5 => { let k = rng.range(3, 8) as usize; busy_pool_close(&mut out, &sv, k, s); }
                 9 => { let k = rng.range(4, 10) as usize; let g = rng.below(4); burst_then_garbage(&mut out, &sv, *rng.pick(&["wsp", "wsn", "wsq"]), k, g, s); }
@@ -2282,14 +2665,26 @@ fn main() {
                 13 => { let id = *rng.pick(&[0u64, 1, 7, u64::MAX, 1 << 63]); let k = *rng.pick(&[2usize, 3, 5, 9, 17, 65]); dup_ids(&mut out, &sv, id, k, s); }
                 3 => panic_offreader(&mut out, &sv, *rng.pick(&["ws", "wsn", "wsq"]), s),
                 1 => { let m = rng.range(3, 6) as usize; offreader_backpressure(&mut out, &sv, *rng.pick(&["wsq", "wsp", "wsb", "wsn"]), m, if args.thorough() { *rng.pick(&[400u64, 900]) } else { 350 }, s); }
-                6 => { let long = rng.chance(1, 2); let k = rng.range(0, 5) as usize; let cut = *rng.pick(&[1usize, 8, 47, 48, 49, 53, 56]); stalled_sender(&mut out, &sv, *rng.pick(&["tcps", "atcps"]), k, cut, long, s); }
+                6 => { let long = rng.chance(1, 2); let k = rng.range(0, 5) as usize; let cut = *rng.pick(&[1usize, 8, 47, 48, 49, 53, 56]); let ep = *rng.pick(&["tcps", "atcps"]);
+                    if let Some(h) = deferred.take() { h.join().expect("scenario").merge(&mut out); }
+                    deferred = Some(sc.spawn(move || { let mut r = Rec::default(); stalled_sender(&mut r, sv, ep, k, cut, long, s); r })); }
                 8 => tcp_inline_panic(&mut out, &sv, *rng.pick(&["tcp", "tcpn", "atcp", "atcpn", "tcpw", "atcpw"]), *rng.pick(&["str", "any"]), s),
-                10 => { let limit = *rng.pick(&[1usize, 2, 4, 0]); let extra = rng.range(1, 3) as usize; saturate(&mut out, &sv, limit, extra, rng.chance(1, 2), s); }
-                14 => { let g = s % 32 == 14; let n = if g { rng.range(5, 9) } else { rng.range(2, 8) } as usize; shutdown_midflight(&mut out, &sv, g, n, s); }
+                12 => many_connections(&mut out, &sv, *rng.pick(&["tcp", "atcp", "ws", "wsn", "tcpn", "atcpn"]), 12, s),
+                4 if s == 20 => long_stalls(&mut out, &sv, &[300, 600, 1100], s),
+                4 if s == 36 && args.thorough() => long_stalls(&mut out, &sv, &[2500, 5500, 11000], s),
+                10 => { let limit = *rng.pick(&[1usize, 2, 4, 0]); let extra = rng.range(1, 3) as usize; let w = rng.chance(1, 2);
+                    if let Some(h) = deferred.take() { h.join().expect("scenario").merge(&mut out); }
+                    deferred = Some(sc.spawn(move || { let mut r = Rec::default(); saturate(&mut r, sv, limit, extra, w, s); r })); }
+                14 => { let g = s % 32 == 14; let n = if g { rng.range(5, 9) } else { rng.range(2, 8) } as usize;
+                    if let Some(h) = deferred.take() { h.join().expect("scenario").merge(&mut out); }
+                    deferred = Some(sc.spawn(move || { let mut r = Rec::default(); shutdown_midflight(&mut r, sv, g, n, s); r })); }
                 _ => {}
             }
+            out.add(&format!("dispatch.ms.scenario.{}", s % 16), t_scen.elapsed().as_millis() as u64);
             if out.oracle_failures > fails0 && t0.elapsed() > Duration::from_secs(8) { slow_failures += 1; }
         }
+        if let Some(h) = deferred.take() { h.join().expect("scenario").merge(&mut out); }
+        });
         stop.store(true, std::sync::atomic::Ordering::Relaxed);
         for h in observers { let _ = h.join(); }
         out.add("dispatch.observer.router_get", seen.load(std::sync::atomic::Ordering::Relaxed));
